@@ -15,13 +15,16 @@
     `pix_shift`, the `covered` test (the comparator is a parameter: `==` in the code as it is
     now, `np.isclose` before the fix), the early `break`, the replacement `uniq[covered] = …`,
     and the final `np.unique`.
-  * reader: `order = floor(log2(uniq // 4)).astype(int32) // 2`,
+  * reader: `order = floor(log2(uniq // 4)).astype(int64) // 2`,
     `index = uniq - 4*(4**order)`, `max_order = max(order)`, expansion of every cell to
     `max_order`, `map[sort(pixels)] = True`; the observable is `(max_order, valid_pixels)`.
-    NOTE (int32): `order` is an `int32` array, so numpy evaluates `4**order` and `4*(4**order)`
-    (and `4**(max_order - uniq_order)` on `np.int32` scalars) in 32-bit arithmetic, silently
-    wrapping.  The model keeps that wrap (`wrap32`), because it is what the code does: for
-    `order ≥ 15` (nside ≥ 32768) the subtracted offset is 0 instead of `4*4^order`.
+    `order` is an `int64` array in the code as it is now, so `4*(4**order)` and
+    `4**(max_order - uniq_order)` are exact for every HEALPix order (≤ 29); `mocRead` uses exact
+    arithmetic.  Before the fix ("reading a MOC with cells of order 15 or more") `order` was
+    `int32` and numpy evaluated both expressions in 32-bit arithmetic, silently wrapping: for
+    `order ≥ 15` (nside ≥ 32768) the subtracted offset was 0 instead of `4*4^order`.  That
+    pre-fix reader is kept as `mocReadI32` (used only by the Witness theorems of C17); both are
+    instances of `mocReadWith`.
 
   Not modelled: the FITS container, the `MOCORDER` header, the `TFORM1` patch; `np.log2` on
   float64 is taken to be the exact floor of the binary logarithm (true for `uniq < 2^50`).
@@ -43,15 +46,15 @@ def uniqOrder (u : Nat) : Nat := Nat.log2 (u / 4) / 2
 def uniqIndex (u : Nat) : Nat := u - 4 * 4 ^ uniqOrder u
 
 /-- Result of a numpy `int32` computation whose exact value is `x`, for the values that occur
-    here.  All of them are powers of two `2^k` with `k` even, so the wrapped value
-    `x mod 2^32` is never in the negative half `[2^31, 2^32)`: it is `x` itself when
+    in the PRE-FIX reader.  All of them are powers of two `2^k` with `k` even, so the wrapped
+    value `x mod 2^32` is never in the negative half `[2^31, 2^32)`: it is `x` itself when
     `x < 2^31` and `0` otherwise. -/
 def wrap32 (x : Nat) : Nat := x % 2 ^ 32
 
-/-- `4*(4**order)` as numpy computes it for an `int32` `order`. -/
+/-- `4*(4**order)` as numpy computed it for an `int32` `order` (pre-fix reader). -/
 def uniqBaseI32 (o : Nat) : Nat := wrap32 (4 * wrap32 (4 ^ o))
 
-/-- The index of a UNIQ code as `_read_moc_fits` computes it. -/
+/-- The index of a UNIQ code as the PRE-FIX `_read_moc_fits` computed it. -/
 def uniqIndexI32 (u : Nat) : Nat := u - uniqBaseI32 (uniqOrder u)
 
 /-! ### The map of child counts -/
@@ -135,18 +138,28 @@ def mocWrite (maxOrd minOrd : Nat) (pixels : List Nat) : List Nat :=
 
 /-! ### Reader -/
 
-/-- `_read_moc_fits`: `(max_order, valid pixels of the boolean map, ascending)`. -/
-def mocRead (uniq : List Nat) : Nat × List Nat :=
-  -- order = floor(log2(uniq//4)).astype(int32)//2 ; index = uniq - 4*(4**order)
-  let cells := uniq.map fun u => (uniqOrder u, uniqIndexI32 u)
+/-- `_read_moc_fits`, parameterised by how `4*(4**order)` (`base`) and
+    `4**(max_order - uniq_order)` (`pw`) are evaluated:
+    `(max_order, valid pixels of the boolean map, ascending)`. -/
+def mocReadWith (base pw : Nat → Nat) (uniq : List Nat) : Nat × List Nat :=
+  -- order = floor(log2(uniq//4)).astype(int)//2 ; index = uniq - 4*(4**order)
+  let cells := uniq.map fun u => (uniqOrder u, u - base (uniqOrder u))
   -- max_order = np.max(order)
   let maxOrder := (cells.map (·.1)).foldl max 0
   -- left_shift(uniq_index, 2*(max_order - uniq_order)) + arange(4**(max_order - uniq_order))
   let pixels := cells.flatMap fun c =>
     let sh := 2 * (maxOrder - c.1)
     let start := c.2 <<< sh
-    (List.range (wrap32 (4 ^ (maxOrder - c.1)))).map fun j => start + j
+    (List.range (pw (maxOrder - c.1))).map fun j => start + j
   -- healsparse_map[np.sort(pixels)] = True ; observable: valid_pixels
   (maxOrder, npUnique pixels)
+
+/-- `_read_moc_fits` as it is in the code (`int64` orders: exact arithmetic). -/
+def mocRead (uniq : List Nat) : Nat × List Nat :=
+  mocReadWith (fun o => 4 * 4 ^ o) (fun k => 4 ^ k) uniq
+
+/-- `_read_moc_fits` before the fix (`int32` orders: 32-bit wrap).  Witness use only. -/
+def mocReadI32 (uniq : List Nat) : Nat × List Nat :=
+  mocReadWith uniqBaseI32 (fun k => wrap32 (4 ^ k)) uniq
 
 end HS
